@@ -1379,7 +1379,8 @@ def call_by_contract(E, c, fn, mod, selfv, args, kwargs, node):
         mods = [E.ev_spec_value(x).z for x in c.modifies]
         # a callee with event externals appends to the ghost trace (default; `emits` overrides)
         emits_ = c.d.get("emits", any(isinstance(x, dict) and x.get("event") for x in c.externals.values()))
-        if mods or c.d.get("allocates") or c.modifies == "*" or emits_:
+        havocked_ = bool(mods or c.d.get("allocates") or c.modifies == "*" or emits_)
+        if havocked_:
             for m_ in mods:
                 E.wframe(m_, f"call {c.qual}")
             if "$trace" in st.vars and emits_:
@@ -1415,7 +1416,15 @@ def call_by_contract(E, c, fn, mod, selfv, args, kwargs, node):
         spec = c.raises[name]
         if isinstance(spec, str):
             spec = {"when": spec}
-        exc = opaque_exception(E, canon_class(E, name))
+        if havocked_:
+            # the exception object was created DURING the call: it lies in the allocation window of the call (so that the callee's
+            # postcondition may relate it to what the call stored, e.g. a ghost event that records it)
+            ecls = canon_class(E, name)
+            exc = V(("obj", ecls), fresh("exc"))
+            st.pc.append(z3.And(exc.z >= pre.nref, exc.z < st.nref))
+            E.set_kind(exc.z, E.kind_name(("obj", ecls)))
+        else:
+            exc = opaque_exception(E, canon_class(E, name))
         env2 = dict(env)
         env2["exc"] = exc
         st.vars = env2
